@@ -266,10 +266,13 @@ type workerOut struct {
 	ModeRuns    map[string]int `json:"mode_runs"`
 	WallS       float64        `json:"wall_s"`
 	Extra       map[string]int `json:"extra"`
+	// NextRun >= 0: the worker stopped early to give its memory back (goroutines of finished bubbles are never
+	// collected); the parent starts a fresh process for this slot at that run index
+	NextRun int `json:"next_run"`
 }
 
-func workerMain(p *Profile, tier string, base uint64, widx, wcount int, deadline time.Time, maxRuns int, outPath string, findings []Finding) {
-	wo := workerOut{Stats: map[string]int{}, Known: map[string]int{}, Stops: map[string]int{}, Anomalies: map[string]int{}, ModeRuns: map[string]int{}, Extra: map[string]int{}}
+func workerMain(p *Profile, tier string, base uint64, widx, wcount int, deadline time.Time, maxRuns int, outPath string, findings []Finding, firstRun int) {
+	wo := workerOut{NextRun: -1, Stats: map[string]int{}, Known: map[string]int{}, Stops: map[string]int{}, Anomalies: map[string]int{}, ModeRuns: map[string]int{}, Extra: map[string]int{}}
 	hashes := map[uint64]bool{}
 	nontriv := map[uint64]bool{}
 	states := map[string]bool{}
@@ -289,9 +292,22 @@ func workerMain(p *Profile, tier string, base uint64, widx, wcount int, deadline
 			}
 		}
 	}()
-	for run := widx; run < maxRuns; run += wcount {
+	if firstRun < widx {
+		firstRun = widx
+	}
+	memLimit := uint64(envInt("VERIF_WORKER_MEM_MB", 1536)) << 20
+	genLimit := time.Duration(envInt("VERIF_WORKER_GEN_S", 240)) * time.Second
+	for run := firstRun; run < maxRuns; run += wcount {
 		if time.Now().After(deadline) {
 			break
+		}
+		if run != firstRun && wo.Runs%8 == 0 {
+			var ms runtime.MemStats
+			runtime.ReadMemStats(&ms)
+			if ms.Sys > memLimit || time.Since(start) > genLimit {
+				wo.NextRun = run
+				break
+			}
 		}
 		curRun.Store(int64(run))
 		lastDone.Store(time.Now().UnixNano())
@@ -518,7 +534,11 @@ func Main() {
 		wcount, _ := strconv.Atoi(os.Args[6])
 		dl, _ := strconv.ParseInt(os.Args[7], 10, 64)
 		maxRuns, _ := strconv.Atoi(os.Args[8])
-		workerMain(p, os.Args[3], base, widx, wcount, time.UnixMilli(dl), maxRuns, os.Args[9], loadFindings(filepath.Join(verif, "known_findings.json")))
+		firstRun := 0
+		if len(os.Args) > 10 {
+			firstRun, _ = strconv.Atoi(os.Args[10])
+		}
+		workerMain(p, os.Args[3], base, widx, wcount, time.UnixMilli(dl), maxRuns, os.Args[9], loadFindings(filepath.Join(verif, "known_findings.json")), firstRun)
 	case "run":
 		p := profiles[os.Args[2]]
 		if p == nil {
@@ -630,42 +650,77 @@ func checkMain(verif, prop, tier string) {
 	}
 	defer os.RemoveAll(tmp)
 	deadline := time.Now().Add(budget)
-	var cmds []*exec.Cmd
+	// one slot per worker; a slot is served by successive processes ("generations"): a worker stops early when its
+	// memory has grown (goroutines left behind by finished bubbles are never collected) and a fresh one continues
+	var mu sync.Mutex
+	var outs []string
+	live := map[*exec.Cmd]bool{}
+	failed := false
+	var wg sync.WaitGroup
 	for i := 0; i < W; i++ {
-		out := filepath.Join(tmp, fmt.Sprintf("w%d.json", i))
-		c := exec.Command(self(), "worker", prop, tier, strconv.FormatUint(base, 10), strconv.Itoa(i), strconv.Itoa(W),
-			strconv.FormatInt(deadline.UnixMilli(), 10), strconv.Itoa(maxRuns), out)
-		c.Env = append(os.Environ(), "GOMAXPROCS=2", "GODEBUG=randseednop=0")
-		c.Stderr = os.Stderr
-		if err := c.Start(); err != nil {
-			die2("%v", err)
-		}
-		cmds = append(cmds, c)
+		wg.Add(1)
+		go func(i int) {
+			defer wg.Done()
+			first := i
+			for gen := 0; ; gen++ {
+				out := filepath.Join(tmp, fmt.Sprintf("w%d.g%d.json", i, gen))
+				c := exec.Command(self(), "worker", prop, tier, strconv.FormatUint(base, 10), strconv.Itoa(i), strconv.Itoa(W),
+					strconv.FormatInt(deadline.UnixMilli(), 10), strconv.Itoa(maxRuns), out, strconv.Itoa(first))
+				c.Env = append(os.Environ(), "GOMAXPROCS=2", "GODEBUG=randseednop=0")
+				c.Stderr = os.Stderr
+				if err := c.Start(); err != nil {
+					die2("%v", err)
+				}
+				mu.Lock()
+				live[c] = true
+				mu.Unlock()
+				err := c.Wait()
+				mu.Lock()
+				delete(live, c)
+				if err != nil {
+					fmt.Fprintf(os.Stderr, "pdsim: worker failed: %v\n", err)
+					failed = true
+					mu.Unlock()
+					return
+				}
+				outs = append(outs, out)
+				mu.Unlock()
+				b, rerr := os.ReadFile(out)
+				var wo workerOut
+				if rerr != nil || json.Unmarshal(b, &wo) != nil {
+					mu.Lock()
+					failed = true
+					mu.Unlock()
+					return
+				}
+				if wo.NextRun < 0 || wo.Violation != nil || time.Now().After(deadline) {
+					return
+				}
+				first = wo.NextRun
+			}
+		}(i)
 	}
-	// watchdog: a worker that overruns the budget by a wide margin is an infrastructure failure
+	// watchdog: workers that overrun the budget by a wide margin are an infrastructure failure
 	timer := time.AfterFunc(budget+5*time.Minute, func() {
-		for _, c := range cmds {
+		mu.Lock()
+		for c := range live {
 			c.Process.Kill()
 		}
+		mu.Unlock()
 	})
-	failed := false
-	for _, c := range cmds {
-		if err := c.Wait(); err != nil {
-			fmt.Fprintf(os.Stderr, "pdsim: worker failed: %v\n", err)
-			failed = true
-		}
-	}
+	wg.Wait()
 	timer.Stop()
 	if failed {
 		os.Exit(2)
 	}
+	sort.Strings(outs)
 	agg := workerOut{Stats: map[string]int{}, Known: map[string]int{}, Stops: map[string]int{}, Anomalies: map[string]int{}, ModeRuns: map[string]int{}, Extra: map[string]int{}}
 	hashes := map[uint64]bool{}
 	nontriv := map[uint64]bool{}
 	states := map[string]bool{}
 	var viols []*RunOut
-	for i := 0; i < W; i++ {
-		b, err := os.ReadFile(filepath.Join(tmp, fmt.Sprintf("w%d.json", i)))
+	for _, of := range outs {
+		b, err := os.ReadFile(of)
 		if err != nil {
 			die2("%v", err)
 		}
